@@ -596,6 +596,63 @@ func loadReaders(repo string) {
 	}
 }
 
+// loadMigrations: which public decode entry points call otlp.Migrate* — per signal the ProtoUnmarshaler (p<x>/pb.go), the
+// JSONUnmarshaler (p<x>/json.go) and ExportRequest.UnmarshalProto / UnmarshalJSON (p<x>/p<x>otlp/request.go; UnmarshalJSON may
+// delegate to the package's jsonUnmarshaler). Returns the root aliases for the protobuf and the JSON path.
+func loadMigrations(repo string) (pb, js []string) {
+	callsMigrate := func(fd *ast.FuncDecl) (migrate, delegates bool) {
+		ast.Inspect(fd.Body, func(n ast.Node) bool {
+			if c, ok := n.(*ast.CallExpr); ok {
+				if se, ok := c.Fun.(*ast.SelectorExpr); ok {
+					if x, ok := se.X.(*ast.Ident); ok {
+						if x.Name == "otlp" && strings.HasPrefix(se.Sel.Name, "Migrate") {
+							migrate = true
+						}
+						if x.Name == "jsonUnmarshaler" && strings.HasPrefix(se.Sel.Name, "Unmarshal") {
+							delegates = true
+						}
+					}
+				}
+			}
+			return true
+		})
+		return
+	}
+	methods := func(path, recv string) map[string]*ast.FuncDecl {
+		out := map[string]*ast.FuncDecl{}
+		for _, d := range parse(path).Decls {
+			if fd, ok := d.(*ast.FuncDecl); ok && fd.Recv != nil && fd.Body != nil && recvName(fd) == recv {
+				out[fd.Name.Name] = fd
+			}
+		}
+		return out
+	}
+	for _, s := range signals {
+		alias := strings.ToLower(s.top)
+		dir := filepath.Join(repo, "pdata", s.dir)
+		um := methods(filepath.Join(dir, "pb.go"), "ProtoUnmarshaler")["Unmarshal"+s.top]
+		check(um != nil, "%s/pb.go: ProtoUnmarshaler.Unmarshal%s not found", s.dir, s.top)
+		if m, _ := callsMigrate(um); m {
+			pb = append(pb, alias)
+		}
+		uj := methods(filepath.Join(dir, "json.go"), "JSONUnmarshaler")["Unmarshal"+s.top]
+		check(uj != nil, "%s/json.go: JSONUnmarshaler.Unmarshal%s not found", s.dir, s.top)
+		jsonMigrates, _ := callsMigrate(uj)
+		if jsonMigrates {
+			js = append(js, alias)
+		}
+		rq := methods(filepath.Join(dir, s.dir+"otlp", "request.go"), "ExportRequest")
+		check(rq["UnmarshalProto"] != nil && rq["UnmarshalJSON"] != nil, "%sotlp/request.go: ExportRequest.UnmarshalProto/UnmarshalJSON not found", s.dir)
+		if m, _ := callsMigrate(rq["UnmarshalProto"]); m {
+			pb = append(pb, alias+"req")
+		}
+		if m, d := callsMigrate(rq["UnmarshalJSON"]); m || (d && jsonMigrates) {
+			js = append(js, alias+"req")
+		}
+	}
+	return pb, js
+}
+
 // ---------------------------------------------------------------- output
 
 func sortedIndex[V any](m map[string]V) ([]string, map[string]int) {
@@ -709,6 +766,18 @@ func main() {
 		fmt.Fprintf(&b, "  (%q, [\n%s])%s", n, strings.Join(cs, ",\n"), sep(i, len(mnames)))
 	}
 	b.WriteString("]\n\n")
+	mpb, mjs := loadMigrations(os.Args[1])
+	ql := func(xs []string) string {
+		var o []string
+		for _, x := range xs {
+			o = append(o, strconv.Quote(x))
+		}
+		return "[" + strings.Join(o, ", ") + "]"
+	}
+	b.WriteString("/-- roots whose public PROTOBUF entry point calls otlp.Migrate* (ProtoUnmarshaler.Unmarshal*, ExportRequest.UnmarshalProto) -/\n")
+	fmt.Fprintf(&b, "def migratesPbRoots : List String := %s\n", ql(mpb))
+	b.WriteString("/-- roots whose public JSON entry point calls otlp.Migrate* (JSONUnmarshaler.Unmarshal*, ExportRequest.UnmarshalJSON, possibly by delegation) -/\n")
+	fmt.Fprintf(&b, "def migratesJsonRoots : List String := %s\n\n", ql(mjs))
 	b.WriteString("def schema : Schema := { msgs := msgs, enums := enums, roots := roots }\n\nend OtelVerif.Gen.OtlpSchema\n")
 	fmt.Print(b.String())
 }
